@@ -8,6 +8,9 @@ open JetVerif.Props.C06
 #print axioms map_field_eq_index
 #print axioms struct_field_eq_index
 #print axioms struct_missing_field_is_error
+#print axioms method_wins_over_field
+#print axioms method_through_pointer
+#print axioms pointer_method_needs_addressable
 #print axioms indexArg_in_range
 #print axioms slice_index
 #print axioms nil_pointer_is_error
